@@ -619,7 +619,11 @@ func (vc *VC) structSort(t types.Type, st *types.Struct) *structInfo {
 	vc.structs[name] = si
 	for i := 0; i < st.NumFields(); i++ {
 		f := st.Field(i)
-		si.fields = append(si.fields, fmt.Sprintf("%s.%s", name, mangle(f.Name())))
+		fname := mangle(f.Name())
+		if f.Name() == "_" {
+			fname = fmt.Sprintf("blank%d", i)
+		}
+		si.fields = append(si.fields, fmt.Sprintf("%s.%s", name, fname))
 		si.ftypes = append(si.ftypes, f.Type())
 		si.fsorts = append(si.fsorts, vc.sortOf(f.Type())) // declares nested datatypes first
 	}
